@@ -284,6 +284,24 @@ void dataset_round(vt::Rng& rng)
     }
 }
 
+double maxrel(const tensor4d_t& a, const tensor4d_t& b)
+{
+    if (a.dims() != b.dims())
+    {
+        return 1e9;
+    }
+    double scale = 1e-12, diff = 0.0;
+    for (tensor_size_t i = 0; i < a.size(); ++i)
+    {
+        scale = std::max({scale, std::fabs(a(i)), std::fabs(b(i))});
+    }
+    for (tensor_size_t i = 0; i < a.size(); ++i)
+    {
+        diff = std::max(diff, std::fabs(a(i) - b(i)));
+    }
+    return diff / scale;
+}
+
 bool close(const tensor4d_t& a, const tensor4d_t& b)
 {
     if (a.dims() != b.dims())
@@ -305,14 +323,12 @@ bool close(const tensor4d_t& a, const tensor4d_t& b)
     return true;
 }
 
-void fit_case(vt::Rng& rng, int64_t icase)
+void fit_case(const uint64_t pseed, const bool is_gboost, const std::string& linear_id, int64_t icase)
 {
     // the same fit with internal pools capped at 1, 2 and 16 threads and dataset pools of 1, 3, 16 threads
-    const auto pseed     = rng.next();
-    const auto is_gboost = rng.coin();
-    const auto linear_id = rng.pick(std::vector<std::string>{"ordinary", "ridge", "lasso", "elastic_net"});
     std::vector<tensor4d_t> predictions;
     std::vector<indices_t>  features;
+    std::vector<std::string> sigs; // per variant: the sequence of (weak learner, selected features) - for the replay artefact
     std::string             desc;
     for (int variant = 0; variant < 3; ++variant)
     {
@@ -347,9 +363,25 @@ void fit_case(vt::Rng& rng, int64_t icase)
             prototypes.emplace_back(wlearner_t::all().get("affine"));
             prototypes.emplace_back(wlearner_t::all().get("dense-table"));
             model.prototypes(prototypes);
-            model.fit(dataset, samples, *loss, ml::params_t{}.solver(*solver).splitter(*splitter));
+            auto params = ml::params_t{}.solver(*solver).splitter(*splitter);
+            if (const auto* dir = std::getenv("VERIF_FIT_LOG"); dir != nullptr) // diagnosis only: the library's own log, per variant
+            {
+                params.logger(make_file_logger(std::string(dir) + "/fit_" + std::to_string(icase) + "_" + std::to_string(variant) + ".log"));
+            }
+            model.fit(dataset, samples, *loss, params);
             predictions.push_back(model.predict(dataset, samples));
             features.push_back(model.features());
+            std::string sig;
+            for (const auto& wlearner : model.wlearners())
+            {
+                sig += wlearner->type_id() + "[";
+                for (const auto f : wlearner->features())
+                {
+                    sig += std::to_string(f) + " ";
+                }
+                sig += "] ";
+            }
+            sigs.push_back(sig);
             desc = "gboost";
         }
         else
@@ -366,6 +398,7 @@ void fit_case(vt::Rng& rng, int64_t icase)
             model->fit(dataset, samples, *loss, ml::params_t{}.solver(*solver).splitter(*splitter));
             predictions.push_back(model->predict(dataset, samples));
             features.push_back(indices_t{});
+            sigs.emplace_back();
             desc = "linear:" + model->type_id();
         }
         verif::set_max_threads(0);
@@ -373,8 +406,8 @@ void fit_case(vt::Rng& rng, int64_t icase)
     }
     for (size_t v = 1; v < predictions.size(); ++v)
     {
-        vt::put(vt::J("Fit").i("case", icase).s("model", desc).i("variant", static_cast<int64_t>(v)).b("sameFeatures", features[v] == features[0]).b(
-            "closePredictions", close(predictions[v], predictions[0])));
+        vt::put(vt::J("Fit").i("case", icase).s("model", desc).i("variant", static_cast<int64_t>(v)).b("sameFeatures", features[v] == features[0] && sigs[v] == sigs[0]).b(
+            "closePredictions", close(predictions[v], predictions[0])).s("pseed", std::to_string(pseed)).s("linear", linear_id).i("maxrel_e9", static_cast<int64_t>(std::min(1e9 * maxrel(predictions[v], predictions[0]), 2e9))).s("model0", sigs[0]).s("modelv", sigs[v]));
     }
 }
 } // namespace
@@ -387,6 +420,17 @@ int main(int argc, char* argv[])
         return 2;
     }
     vt::Trace::get().open(argv[1]);
+    if (std::string(argv[2]) == "fit") // replay of one fit case: shared_driver <out> fit <pseed> <gboost|linear id> [repeats]
+    {
+        const auto pseed = std::strtoull(argv[3], nullptr, 10);
+        const auto what  = std::string(argv[4]);
+        for (int64_t i = 0, n = argc > 5 ? std::atoll(argv[5]) : 1; i < n; ++i)
+        {
+            fit_case(pseed, what == "gboost", what, i);
+        }
+        vt::put(vt::J("Reset").s("what", "end").i("tasks", 0).i("threads", 0));
+        return 0;
+    }
     const auto seed = static_cast<uint64_t>(std::atoll(argv[2]));
     vt::Rng    rng(seed);
     const auto rounds = std::atoll(argv[3]), fits = std::atoll(argv[4]);
@@ -401,7 +445,10 @@ int main(int argc, char* argv[])
     {
         try
         {
-            fit_case(rng, i);
+            const auto pseed     = rng.next();
+            const auto is_gboost = rng.coin();
+            const auto linear_id = rng.pick(std::vector<std::string>{"ordinary", "ridge", "lasso", "elastic_net"});
+            fit_case(pseed, is_gboost, linear_id, i);
         }
         catch (const std::exception& e)
         {
